@@ -28,6 +28,7 @@ import EaselModel.Msafile.PhylipReadDomain
 import EaselModel.Msafile.StoTokens
 import EaselModel.Msafile.StoFirstMention
 import EaselModel.Msafile.GuessPhylip
+import EaselModel.Msafile.StoNumRoundTrip
 /-! # C03 — writing an alignment and reading it back preserves it: property theorems
 
 Full statement (properties.jsonl): for every well-formed alignment, writing it in any of the ten formats and reading the
@@ -2703,5 +2704,56 @@ example : guessFormat none (splitLines (phylipWrite true none exPhy)) = .fail :=
 example : guessFormat none (splitLines (phylipWrite true none { exPhy with alen := 5, aseq := exPhy.aseq.map (·.take 5) })) = .ok (.phylip, 10) ∧
     phylipWrite true none { exPhy with alen := 5, aseq := exPhy.aseq.map (·.take 5) }
       = phylipWrite false none { exPhy with alen := 5, aseq := exPhy.aseq.map (·.take 5) } := by decide +kernel
+
+/-! ## ===== NUMERIC ROUND TRIP OF WEIGHTS AND CUT-OFFS (round 6b) =====
+
+"Stockholm and Pfam preserve … weights and score cutoffs to the two and one decimals the format prints", as VALUES: C01's exact model
+of `strtod` / `esl_memtof` (`Msafile/StoNum.lean`: `strtodBits`, `strtofBits`, tied to the library by C01's differential run) composed
+with the exact model of `printf("%.2f" / "%.1f")` (`fmtF2`, `fmtF1`, tied byte for byte by this check), for EVERY finite value.  Together
+with `weight_token_roundtrip` (the bytes handed to `esl_memtod` are the printed token) and `printed_value_half_unit` (the printed
+number is within half a unit of the last decimal of the value) this is the full numeric statement: the weight read back is the
+binary64 number nearest to a two-decimal number within 0.005 of the weight written. -/
+
+/-- the double the reader stores for a printed weight: the weight's sign bit + the binary64 number nearest (ties to even) to the printed
+    two-decimal value `q / 100`, `q = fixedQ (f64Mant b) (f64Exp b) 2` (0 for `q = 0`) -/
+theorem weight_value_reread (b : UInt64) (h : finiteF64 b) :
+    strtodBits (fmtF2 b) = UInt64.ofNat ((if f64Neg b then 2 ^ 63 else 0) +
+      (if fixedQ (f64Mant b) (f64Exp b) 2 = 0 then 0 else round64 (fixedQ (f64Mant b) (f64Exp b) 2) 100)) := strtodBits_fmtF2 b h
+
+/-- **numeric round trip of a weight**: `strtod (printf "%.2f" w) = w` bit for bit EXACTLY when `w` is the binary64 number nearest to the
+    two-decimal number it prints as; otherwise the value read back is that nearest number (`weight_value_reread`) -/
+theorem weight_value_roundtrip_iff (b : UInt64) (h : finiteF64 b) :
+    strtodBits (fmtF2 b) = b ↔
+      b = UInt64.ofNat ((if f64Neg b then 2 ^ 63 else 0) +
+        (if fixedQ (f64Mant b) (f64Exp b) 2 = 0 then 0 else round64 (fixedQ (f64Mant b) (f64Exp b) 2) 100)) :=
+  EaselModel.Msafile.weight_value_roundtrip_iff b h
+
+/-- the float the reader stores for a printed cut-off: `(float)` of the binary64 number nearest to the printed one-decimal value -/
+theorem cutoff_value_reread (c : UInt32) (h : finiteF32 c) :
+    strtofBits (fmtF1 c) = f64ToF32 (UInt64.ofNat ((if f32Neg c then 2 ^ 63 else 0) +
+      (if fixedQ (f32Mant c) (f32Exp c) 1 = 0 then 0 else round64 (fixedQ (f32Mant c) (f32Exp c) 1) 10))) := strtofBits_fmtF1 c h
+
+/-- when the Stockholm reader accepts the written line `#=GS <name> WT <tok>` of sequence `i`, the recorder of C01's value-carrying reader
+    `stockholmReadV` appends, for the sequence the line names, exactly `strtod` of the printed token (= the value of `weight_value_reread`) -/
+theorem weight_value_recorded (ns : NumSt) (st st' : StoSt) (m : Msa) (i : Nat) (hl : st.lead = false)
+    (hn : nameOk (m.names.getD i [])) (hf : finiteF64 ((m.wgt.getD i Wgt.unset).toBits)) :
+    numUpd ns st st' (gsLine m 0 i (wtTok m i))
+      = { ns with w := ns.w ++ [(st'.si - 1, strtodBits (fmtF2 ((m.wgt.getD i Wgt.unset).toBits)))] } :=
+  numUpd_wt_line ns st st' m i hl hn hf
+
+/-- … and for cut-offs: on the value text `<tok1> <tok2>` of a written `#=GF GA|NC|TC` line the recorder stores `(float) strtod` of exactly
+    the two printed tokens (= the values of `cutoff_value_reread`) in the two slots -/
+theorem cutoff_value_recorded (ns : NumSt) (a b : UInt32) (i1 i2 : Nat) (u : Bool) (ha : finiteF32 a) (hb : finiteF32 b) :
+    numCutoffs ns (fmtF1 a ++ [32] ++ fmtF1 b) i1 i2 u
+      = { ns with cut := (ns.cut.set i1 (some (strtofBits (fmtF1 a)))).set i2 (some (strtofBits (fmtF1 b))) } :=
+  numCutoffs_written ns a b i1 i2 u ha hb
+
+/-- non-vacuity, both directions: 1.5 and 0.1 come back exactly (they are the doubles nearest to 1.50 and 0.10); 0.125 comes back as
+    the double nearest to 0.12, which prints as `0.12` again; cut-off 0.25 comes back as 0.2f -/
+example : finiteF64 0x3ff8000000000000 ∧ strtodBits (fmtF2 0x3ff8000000000000) = 0x3ff8000000000000 := by unfold finiteF64; decide +kernel
+example : strtodBits (fmtF2 0x3fb999999999999a) = 0x3fb999999999999a := by decide +kernel
+example : strtodBits (fmtF2 0x3fc0000000000000) = 0x3fbeb851eb851eb8 ∧ fmtF2 0x3fbeb851eb851eb8 = fmtF2 0x3fc0000000000000 := by decide +kernel
+example : finiteF32 0x3e800000 ∧ strtofBits (fmtF1 0x3e800000) = 0x3e4ccccd ∧ strtofBits (fmtF1 0x41c80000) = 0x41c80000 := by
+  unfold finiteF32; decide +kernel
 
 end EaselModel.Props.C03
